@@ -276,7 +276,22 @@ fn check(ctx: &Ctx) -> i32 {
     let (nb, ne, nm) = (cat_b.len() as u64, cat_e.len() as u64, cat_m.len() as u64);
     ctx.par_range("category triples", nb * ne * nm, 2, |i, l| {
         let items = [(cat_b[(i / (ne * nm)) as usize], false), (cat_e[((i / nm) % ne) as usize], false), (cat_m[(i % nm) as usize], false)];
-        vh::netsweep::check_list("c01", &items, &reqs, l, false, true);
+        // alternately on an engine built without and with rule optimisation (the public
+        // constructors optimise by default; equivalence of the two is C05's subject, this sweep
+        // only makes sure the per-rule oracle is also put to optimised engines)
+        vh::netsweep::check_list_opt("c01", &items, &reqs, l, false, true, i % 2 == 1);
+    });
+    // shared domain buckets: a pattern-less rule with several initiator domains is filed once per
+    // domain, next to every subset of rules that one of those buckets owns alone; both build modes
+    let shared = ["*$script,domain=example.com|ads.net", "$image,domain=example.com|tracker.co.uk", "@@*$script,domain=example.com|ads.net", "*$csp=d1,domain=example.com|ads.net"];
+    let owned = ["/foo$image,domain=example.com", "/bar$image,domain=example.com", "ads$script,domain=example.com", "*$font,domain=example.com", "@@/foo$script,domain=example.com"];
+    ctx.bound("shared_domain_buckets", serde_json::json!({"shared_rules": shared, "bucket_owned_rules": owned}));
+    ctx.par_range("shared domain buckets", ((shared.len() as u64) << owned.len()) * 2, 2, |i, l| {
+        let optimize = i % 2 == 1;
+        let j = i / 2;
+        let mut items: Vec<(&str, bool)> = owned.iter().enumerate().filter(|(k, _)| j & (1 << k) != 0).map(|(_, r)| (*r, false)).collect();
+        items.insert(items.len() / 2, (shared[(j >> owned.len()) as usize], false));
+        vh::netsweep::check_list_opt("c01.shared", &items, &reqs, l, false, true, optimize);
     });
     // the rule cube: every (pattern shape, option set, exception?) cell alone, and next to each of
     // a few partner rules that change which token the cell is filed under or share its bucket
@@ -326,7 +341,7 @@ fn check(ctx: &Ctx) -> i32 {
                 rq.push(alpha::Req { req, url, source: "https://y.org/".into(), ty: "script" });
             }
         }
-        vh::netsweep::check_list("c01.bucket-size", &items, &rq, l, false, false);
+        vh::netsweep::check_list_opt("c01.bucket-size", &items, &rq, l, false, false, n % 2 == 0);
     });
     // bucket forcing: every rule of the pool, stored under each of its indexable tokens in turn
     let forced: Vec<(&'static str, String, Vec<String>)> = alpha::R_NET.iter().flat_map(|r| forced_lists(r).into_iter().map(move |(t, l)| (*r, t, l))).collect();
